@@ -50,7 +50,7 @@ class State:
     """Immutable-by-convention: every update returns a new State (cheap shallow copies)."""
 
     __slots__ = ("env", "pc", "heap", "nalloc", "decisions", "touched", "lifted", "ghost", "entry_heap", "depth",
-                 "havoc_count", "frames", "lens", "havoc_rules")
+                 "havoc_count", "frames", "lens", "havoc_rules", "abase")
 
     def __init__(self) -> None:
         self.env: Dict[str, Any] = {}
@@ -66,6 +66,7 @@ class State:
         self.havoc_count: int = 0
         self.frames: Tuple[Any, ...] = ()
         self.lens: Dict[int, int] = {}   # list address term id -> statically known length (invalidated by mutation)
+        self.abase: Any = None   # allocation base (a term): the next fresh address is abase + nalloc; None = ALLOC0
         self.havoc_rules: Tuple[Any, ...] = ()   # (id, predicate over heap keys): loop havocs for components not yet in `heap`
 
     def copy(self) -> "State":
@@ -84,6 +85,7 @@ class State:
         s.frames = self.frames
         s.lens = self.lens
         s.havoc_rules = self.havoc_rules
+        s.abase = self.abase
         return s
 
     def assume(self, *fs: Any) -> "State":
@@ -140,6 +142,10 @@ class State:
         s = self.copy()
         s.heap[key] = arr
         return s
+
+    def alloc_ptr(self) -> Any:
+        """the next address to be allocated: every object existing now has a smaller address"""
+        return (ALLOC0 if self.abase is None else self.abase) + self.nalloc
 
     def path_id(self) -> str:
         import hashlib
